@@ -4,6 +4,7 @@ package main
 // `go test -overlay` (nothing is written into /repo).
 
 import (
+	"encoding/base64"
 	"encoding/json"
 	"fmt"
 	"math/big"
@@ -11,6 +12,9 @@ import (
 	"os/exec"
 	"path/filepath"
 	"strings"
+
+	"google.golang.org/protobuf/proto"
+	"google.golang.org/protobuf/types/pluginpb"
 )
 
 type concVal struct {
@@ -406,6 +410,23 @@ func replayFile(b []byte) int {
 		fmt.Println(err)
 		return 2
 	}
+	if doc.Tag["kind"] == "plugin-request" {
+		plugin, err := buildPlugin()
+		if err != nil {
+			fmt.Println(err)
+			return 2
+		}
+		rb, _ := base64.StdEncoding.DecodeString(doc.Tag["request_b64"])
+		req := &pluginpb.CodeGeneratorRequest{}
+		proto.Unmarshal(rb, req)
+		files, perr, err := runPlugin(plugin, req)
+		fmt.Printf("plugin: files=%d error=%q crash=%v\n", len(files), perr, err)
+		if err != nil || perr != "" {
+			fmt.Printf("VIOLATION property=%s replay=%s\n", doc.Property, os.Args[2])
+			return 1
+		}
+		return 0
+	}
 	if doc.Replay == nil || doc.Replay.TestFile == "" {
 		fmt.Printf("replay file for %s carries no concrete input (no-failing-input-found); re-run the check to re-prove the obligation %s\n", doc.Property, doc.Obligation)
 		return 2
@@ -422,4 +443,99 @@ func replayFile(b []byte) int {
 		return 1
 	}
 	return 0
+}
+
+// ---------- replay for generated-code obligations (hand-written concretisers per obligation family) ----------
+
+var schemaByUnit = map[string]*MsgSchema{}
+
+func keyWitness(k *FieldSchema) string {
+	switch k.Kind {
+	case "string":
+		return `b = protowire.AppendTag(b, 1, protowire.BytesType); b = protowire.AppendString(b, "k")`
+	case "fixed32", "sfixed32":
+		return `b = protowire.AppendTag(b, 1, protowire.Fixed32Type); b = protowire.AppendFixed32(b, 7)`
+	case "fixed64", "sfixed64":
+		return `b = protowire.AppendTag(b, 1, protowire.Fixed64Type); b = protowire.AppendFixed64(b, 7)`
+	}
+	return `b = protowire.AppendTag(b, 1, protowire.VarintType); b = protowire.AppendVarint(b, 1)`
+}
+
+const usableAfter = `
+	func() {
+		defer func() {
+			if r := recover(); r != nil {
+				violated(t, "panic on input %x: %v", in, r)
+			}
+		}()
+		m := new(MSG)
+		if err := proto.Unmarshal(in, m); err != nil {
+			return // rejecting the input is fine
+		}
+		_ = proto.Size(m)
+		if _, err := proto.Marshal(m); err != nil {
+			_ = err
+		}
+		_ = proto.Equal(m, m)
+		m.ProtoReflect().Range(func(fd protoreflect.FieldDescriptor, v protoreflect.Value) bool { return true })
+	}()
+`
+
+func replayGen(rep *Report, r *Result) *ReplayOutcome {
+	o := r.Obl
+	ms := schemaByUnit[o.ctx.unit]
+	if ms == nil {
+		return nil
+	}
+	pkgDir := strings.TrimPrefix(strings.TrimPrefix(ms.Pkg.PkgPath, repoModule), "/")
+	if !strings.HasPrefix(ms.Pkg.PkgPath, repoModule) {
+		return nil // fresh code lives in a scratch module: no overlay replay
+	}
+	var body string
+	switch o.Kind {
+	case "wf":
+		// map entry without a value / list element: <unit>/<Field>/wf[…]
+		parts := strings.Split(o.Name, "/")
+		if len(parts) < 3 {
+			return nil
+		}
+		f := ms.field(parts[1])
+		if f == nil || !f.IsMap {
+			return nil
+		}
+		body = fmt.Sprintf(`
+	var b []byte
+	%s
+	var in []byte
+	in = protowire.AppendTag(in, %d, protowire.BytesType)
+	in = protowire.AppendBytes(in, b)
+`, keyWitness(f.Key), f.Num) + strings.ReplaceAll(usableAfter, "MSG", ms.Name)
+	default:
+		return nil
+	}
+	src := fmt.Sprintf(`package %s
+
+import (
+	"fmt"
+	"testing"
+
+	"google.golang.org/protobuf/encoding/protowire"
+	"google.golang.org/protobuf/proto"
+	"google.golang.org/protobuf/reflect/protoreflect"
+)
+
+var _ = protowire.AppendTag
+var _ protoreflect.Kind
+
+func violated(t *testing.T, f string, a ...interface{}) {
+	fmt.Println("GOVC-REPLAY: VIOLATED " + fmt.Sprintf(f, a...))
+	t.Fail()
+}
+
+func TestGovcReplay(t *testing.T) {
+%s
+}
+`, ms.Pkg.Types.Name(), body)
+	cmd, out, bad := runOverlayTest(pkgDir, src)
+	return &ReplayOutcome{Confirmed: bad, Cmd: cmd, Output: out, TestFile: src, Inputs: map[string]interface{}{"witness": "hand-written concretiser for obligation family " + o.Kind}}
 }
